@@ -15,6 +15,7 @@ import (
 	"github.com/wrgl/wrgl/pkg/objects"
 	"github.com/wrgl/wrgl/pkg/progress"
 	"github.com/wrgl/wrgl/pkg/sorter"
+	"github.com/wrgl/wrgl/pkg/verifhook"
 )
 
 type Merger struct {
@@ -116,6 +117,7 @@ func (m *Merger) mergeTables(colDiff *diff.ColDiff, mergeChan chan<- *Merge, err
 			}
 			continue
 		}
+		verifhook.Yield("merger.diff")
 		d := recv.Interface().(*objects.Diff)
 		pkSum := string(d.PK)
 		if m, ok := merges[pkSum]; !ok {
